@@ -10,7 +10,14 @@ GENUINE algorithm name edited in place - bytes that are / are not valid UTF-8, N
 any gap, appended, prepended, one character replaced / deleted / doubled, case changes, with the length prefix
 recomputed so that only the name differs from the genuine message -, inner-encoding
 edits, structure-aware re-encodings of the genuine integers - sign byte dropped (= negative on the
-wire), zero-padded (same value), 0xff-padded / sign-extended, first byte dropped - random bytes).
+wire), zero-padded (same value), 0xff-padded / sign-extended, first byte dropped - random bytes; and a JOINT
+alteration of signature and data: 1..all bytes moved across the boundary between the two, at either end and in
+either direction (sig[:-k] with sig[-k:]+data, sig+data[:k] with data[k:], sig[k:] with data+sig[:k], data[-k:]+sig
+with data[:-k]), on the signature string (length prefix recomputed: a well-formed blob) or on the raw blob - each of
+the two is altered although their concatenation is unchanged).
+Key material includes RSA moduli whose bit length is NOT a multiple of 8 (committed sub-pool keys/rsa-oddbits:
+1025-1031, 1535, 2047, 2052 bits, i.e. every residue 1..7 modulo 8; written once by keys/gen_rsa_oddbits.py): the
+signature has ceil(bits/8) bytes, more bits than the key, and starts with a zero octet far more often.
 Oracle: verify_ssh_sig returns exactly True or False and never raises; the value equals the
 independent strict verifier vlib.keys.RefPub.verify (strict RFC 4253 blob parse + `cryptography`
 verification under a reference public key that was obtained without paramiko); an unmodified
@@ -30,8 +37,9 @@ from vlib import refssh as R
 PROPERTY = "C35"
 LEVEL = "exploration"
 RULE = (
-    "hypothesis draws (key material: 27 bundled key files + fresh Ed25519 seeds / ECDSA scalars (random, and constructed "
-    "ones whose public x or y has leading zero bytes, smallest, largest); signer provenance: "
+    "hypothesis draws (key material: 27 bundled key files + 10 committed RSA keys whose modulus bit length is not a multiple "
+    "of 8 (1025-1031, 1535, 2047, 2052 bits: every residue 1..7; a third of the RSA keys drawn) + fresh Ed25519 seeds / ECDSA "
+    "scalars (random, and constructed ones whose public x or y has leading zero bytes, smallest, largest); signer provenance: "
     "private file, file object, from_path, cryptography object as used by generate(), file+certificate; verifier: same "
     "object, same key via data=/msg=/from_type_string/AgentKey.inner_key/certificate blob/other private provenance, or "
     "another key; RSA algorithm among 6 names; message 0-2000 bytes; data same/altered; shape of the genuine signature "
@@ -44,7 +52,10 @@ RULE = (
     "integers (non-minimal, negative, zero, >= order, 4096-bit, missing, trailing, (r,n-s))/re-encoding of the genuine integers "
     "(ECDSA r, s or both; RSA/Ed25519 signature string: sign byte dropped, zero-padded by 1/2/8, 0xff-padded, sign byte replaced by "
     "0xff, first byte dropped; all length prefixes corrected)/zero-tail truncation (outer, inner)/inner length prefixes/random "
-    "bytes); non-trivial = anything but 'unmodified signature checked by the signing object itself'; distinct by SHA-1 "
+    "bytes/JOINT alteration of signature and data: k = 1-4 or 1-600 (capped at all) bytes moved across the boundary between "
+    "signature and data, 4 arrangements (signature tail -> data head, data head -> signature tail, signature head -> data tail, "
+    "data tail -> signature head), on the signature string with its length prefix recomputed or on the raw blob; the data given "
+    "to the verifier is then the correspondingly altered one); non-trivial = anything but 'unmodified signature checked by the signing object itself'; distinct by SHA-1 "
     "of (verifier, data, blob); excluded by construction (counted): blobs that make an ECDSA verifier inflate a "
     "zero-padded mpint of more than 64 KiB (answers False, but only after 10-30 s of quadratic inflate_long)"
 )
@@ -111,6 +122,16 @@ ALGNAME_PAYLOADS = [
     (b"a", "ascii"),
     (b"2", "ascii"),
 ]
+# JOINT alteration of signature and data: k bytes move across the boundary between the two (the concatenation of the
+# two byte strings, in one of the two orders, stays what it was; each of them on its own is altered).
+#   sig-tail-to-data: sig' = sig[:-k]       data' = sig[-k:] + data        (sig' + data' == sig + data)
+#   data-head-to-sig: sig' = sig + data[:k] data' = data[k:]               (sig' + data' == sig + data)
+#   sig-head-to-data: sig' = sig[k:]        data' = data + sig[:k]         (data' + sig' == data + sig)
+#   data-tail-to-sig: sig' = data[-k:] + sig  data' = data[:-k]            (data' + sig' == data + sig)
+# level "string": the signature string inside the blob, length prefix recomputed (a well-formed blob);
+# level "raw": the whole blob as bytes, no length field corrected.
+SHIFT_DIRS = ["sig-tail-to-data", "data-head-to-sig", "sig-head-to-data", "data-tail-to-sig"]
+SHIFT_LEVELS = ["string", "string", "raw"]
 REENC_OPS = ["drop-lead-zero", "drop-lead-zero", "pad-zero-1", "pad-zero-2", "pad-zero-8", "pad-ff-1", "pad-ff-4", "neg-extend", "drop-first"]
 # shape of the genuine signature to select: weights by repetition ("any" = first signature produced)
 SELS_EC = ["any"] * 22 + ["r-sign"] * 4 + ["s-sign"] * 4 + ["both-sign"] * 4 + ["no-sign"] * 4 + ["r-short", "s-short"]
@@ -130,7 +151,7 @@ def _kid(keyid):
 
 def key_class(keyid):
     if isinstance(keyid, str):
-        return K.spec(keyid).cls
+        return KM.spec(keyid).cls
     return {"ed": "Ed25519Key", "ec": "ECDSAKey"}[keyid[0]]
 
 
@@ -138,7 +159,7 @@ def ref_private(keyid):
     k = ("ref", _kid(keyid))
     if k not in _cache:
         if isinstance(keyid, str):
-            _cache[k] = K.spec(keyid).ref_private()
+            _cache[k] = KM.spec(keyid).ref_private()
         elif keyid[0] == "ed":
             from cryptography.hazmat.primitives.asymmetric import ed25519
 
@@ -188,7 +209,7 @@ def get_obj(keyid, prov):
     from paramiko.message import Message
 
     cls = getattr(paramiko, key_class(keyid))
-    sp = K.spec(keyid) if isinstance(keyid, str) else None
+    sp = KM.spec(keyid) if isinstance(keyid, str) else None
     pub = ref_public(keyid).blob()
     if prov == "file":
         obj = cls.from_private_key_file(sp.path, sp.password)
@@ -249,6 +270,10 @@ def keyids(draw, cls=None):
     if cls == "ECDSAKey" and kind == 1:
         curve = draw(st.sampled_from(["nistp256", "nistp384", "nistp521"]))
         return ["ec", curve, draw(st.sampled_from(KM.ec_special_scalars(curve)))]
+    if cls == "RSAKey" and kind in (0, 1):
+        # modulus bit length NOT a multiple of 8 (committed sub-pool keys/rsa-oddbits, every residue 1..7):
+        # the signature has ceil(bits/8) bytes and its first byte is < 2**(bits % 8)
+        return draw(st.sampled_from([sp.name for sp in KM.subpool_specs("odd")]))
     return draw(st.sampled_from(by[cls]))
 
 
@@ -280,6 +305,8 @@ mutations = st.one_of(
     st.just(["inner-zero-tail"]),
     st.tuples(st.just("inner-lenfield"), st.integers(0, 1), st.sampled_from(["+1", "+256", 0x100000, 0x7FFFFFFF, 0xFFFFFFFF, 0x100001, 0xFFFFF])).map(list),
     st.tuples(st.just("random"), st.binary(max_size=80)).map(list),
+    st.tuples(st.just("shift"), st.sampled_from(SHIFT_DIRS), st.integers(1, 4), st.sampled_from(SHIFT_LEVELS)).map(list),
+    st.tuples(st.just("shift"), st.sampled_from(SHIFT_DIRS), st.integers(1, 600), st.sampled_from(SHIFT_LEVELS)).map(list),
     st.tuples(st.just("lenfield"), st.integers(0, 1), st.sampled_from([0, 1, 0x7FFFFFFF, 0x80000000, 0xFFFFFFFF, 0x100000, 0xFFFFF])).map(list),
 )
 
@@ -467,6 +494,26 @@ def alg_edit(name, op, frac, payload):
     return None if new == name else new
 
 
+def shift_across(sig, data, direction, k):
+    """Move k bytes (at most all of them) across the boundary between a signature and the signed data:
+    (sig', data') or None when there is nothing to move."""
+    if direction == "sig-tail-to-data":
+        k = min(k, len(sig))
+        out = (sig[: len(sig) - k], sig[len(sig) - k :] + data)
+    elif direction == "data-head-to-sig":
+        k = min(k, len(data))
+        out = (sig + data[:k], data[k:])
+    elif direction == "sig-head-to-data":
+        k = min(k, len(sig))
+        out = (sig[k:], data + sig[:k])
+    elif direction == "data-tail-to-sig":
+        k = min(k, len(data))
+        out = (data[len(data) - k :] + sig, data[: len(data) - k])
+    else:
+        raise AssertionError(direction)
+    return out if k > 0 else None
+
+
 def realise(rc, info=None):
     """recipe -> (data, blob, applied) ; applied False when the mutation does not apply to this key type.
     ``info`` (dict) receives "shape" (sig_shape of the genuine signature) and "sel" / "sel_found"."""
@@ -613,6 +660,14 @@ def realise(rc, info=None):
                     break
     elif kind == "random":
         blob = bytes(mut[1])
+    elif kind == "shift":
+        target = sig if mut[3] == "string" else blob
+        moved = shift_across(target, msg, mut[1], mut[2])
+        if moved is None:
+            applied = False
+        else:
+            blob = _join(alg, moved[0]) if mut[3] == "string" else moved[0]
+            return moved[1], blob, True  # the data is part of the alteration: rc["data"] does not apply
     elif kind == "lenfield":
         # overwrite one of the two length fields
         off = 0 if mut[1] == 0 else 4 + len(alg)
@@ -685,6 +740,8 @@ def _simpler(rc):
         out.append(dict(rc, alg=None))
     if rc.get("sel", "any") != "any":
         out.append(dict(rc, sel="any"))
+    if rc["mut"][0] == "shift" and rc["mut"][2] != 1:
+        out.append(dict(rc, mut=[rc["mut"][0], rc["mut"][1], 1, rc["mut"][3]]))
     if rc["mut"][0] in ("flip", "trunc") and rc["mut"][1] != 0:
         out.append(dict(rc, mut=[rc["mut"][0], 0] + list(rc["mut"][2:])))
     return out
@@ -734,6 +791,13 @@ def execute(ctx, rc, state):
         extra.append("alg-edit:%s:%s" % (key_class(rc["signer"]), op))
         if op in ("insert", "append", "prepend", "replace"):
             extra.append("alg-edit-payload:%s:%s" % ({"insert": "spliced", "replace": "spliced"}.get(op, op), _alg_payload(rc["mut"][3])[1]))
+    joint = rc["mut"][0] == "shift" and applied
+    if joint:
+        extra.append("joint:%s:%s:%s" % (key_class(rc["signer"]), rc["mut"][1], rc["mut"][3]))
+        extra.append("joint-k:" + ("1-4" if rc["mut"][2] <= 4 else "5+"))
+    for role in ("signer", "verifier"):
+        if key_class(rc[role]) == "RSAKey":
+            extra.append("%s-rsa-modulus-bits-mod8:%d" % (role, ref_public(rc[role]).bits % 8))
     if not isinstance(rc["signer"], str) and rc["signer"][0] == "ec":
         lx, ly = KM.ec_coord_shape(ref_private(rc["signer"]).public_key())
         extra.append("signer-ec-coord:" + ("short" if lx or ly else "full"))
@@ -743,7 +807,7 @@ def execute(ctx, rc, state):
     ctx.case(
         ident,
         not trivial,
-        ["signer:%s:%s" % (key_class(rc["signer"]), rc["sprov"]), "verifier:%s:%s" % (key_class(rc["verifier"]), rc["vprov"]), "mut:" + rc["mut"][0], "data:" + rc["data"]] + extra,
+        ["signer:%s:%s" % (key_class(rc["signer"]), rc["sprov"]), "verifier:%s:%s" % (key_class(rc["verifier"]), rc["vprov"]), "mut:" + rc["mut"][0], "data:" + ("moved-across-the-boundary" if joint else rc["data"])] + extra,
     )
     if key_class(rc["verifier"]) == "ECDSAKey" and _amplified(blob):
         ctx.exclude("ecdsa-mpint-padded-beyond-64KiB")
